@@ -189,6 +189,11 @@ def mutable_default_pair(rng):
     for j in range(rng.randint(1, 2)):
         d, b = rng.choice([(["seed"], "append_mut"), ({"items": ["seed"]}, "nested_mut"), ({"seed": 0}, "setitem_mut")])
         muts.append({"k": "fn", "name": f"mut{j}", "fid": f"mut{j}", "params": [{"n": src}, {"n": f"acc{j}", "d": copy.deepcopy(d)}], "outs": [f"hist{j}"], "beh": [b, f"acc{j}", src]})
+    if rng.random() < 0.5:
+        # a second inner consumer of the SAME defaulted parameter, running after the mutating one: in the flat graph
+        # every consumer gets its own copy of the default
+        d0 = muts[0]["params"][1]["d"]
+        muts.append({"k": "fn", "name": "peek0", "fid": "peek0", "params": [{"n": "hist0"}, {"n": "acc0", "d": copy.deepcopy(d0)}], "outs": ["peeked0"], "beh": ["snapshot", "acc0"]})
     flat = {"name": "g", "nodes": copy.deepcopy(base["nodes"] + muts), "bind": {}}
     cur = muts
     for d in range(rng.randint(1, 2)):
@@ -200,7 +205,7 @@ def mutable_default_pair(rng):
         ren = {"acc0": "acc0_ext"}
         cur[0]["rename_in"] = [ren]
         for ns in flat["nodes"]:
-            if ns["name"] == "mut0":
+            if any(p_["n"] == "acc0" for p_ in ns.get("params", [])):
                 ns["rename_in"] = [ren]
     return flat, nested, src
 
